@@ -289,6 +289,8 @@ def apply_rules(text, features=(), keep_unsafe=False):
     t = re.sub(r'extern\s+"sysv64"\s+', '', t)
     def _derive(m):
         keep = [d for d in re.split(r'\s*,\s*', m.group(2).strip()) if d in ('Copy', 'Clone', 'PartialEq', 'Eq')]
+        if 'PartialEq' in keep and 'Eq' in keep:
+            keep.append('Structural')    # derived equality is structural: `a == b` in code means equality of the values
         return (m.group(1) + '#[derive(' + ', '.join(keep) + ')]\n') if keep else ''
     t = re.sub(r'^([ \t]*)#\[derive\(([^\]]*)\)\]\s*\n', _derive, t, flags=re.M)
     t = re.sub(r'^[ \t]*#\[(inline[^\]]*|repr\([^\]]*\)|allow\([^\]]*\))\]\s*\n', '', t, flags=re.M)
@@ -499,6 +501,10 @@ def splice_fn(fn_text, spec, notes):
             heads = _loop_heads(mb)
             k = _loop_body_open(mb, heads[ordinal])
             inv = loops[ordinal]
+            # fingerprint of the loop the annotations were written for: the variables its head mentions (R14)
+            ids = set(re.findall(r'(?<![A-Za-z0-9_.:])[a-z_][a-z0-9_]*(?![A-Za-z0-9_]|\s*::|\s*\()', mb[heads[ordinal].start():k]))
+            ids -= set('while for in loop as self mut let if else true false usize u8 u16 u32 u64 isize i8 i16 i32 i64 len verif_i'.split())
+            spec.setdefault('_loop_ids', {})[str(ordinal)] = sorted(ids)
             ins = ''
             if inv.get('spec'):
                 # raw loop clauses (invariant_except_break / invariant / ensures), in Verus' order
@@ -652,6 +658,7 @@ def process_template(path, name=None, auto_bits=()):
     """auto_bits: names of functions that get the bit-vector bridge lemmas (second attempt after a failed proof, see R13)."""
     unit = Unit(name or os.path.splitext(os.path.basename(path))[0])
     unit.auto_lemmas = []
+    unit.loop_heads = {}
     lines = _read_lines(path)
     out = []
     i = 0
@@ -710,7 +717,7 @@ def process_template(path, name=None, auto_bits=()):
             if 'copy' in opts:
                 t = '#[derive(Copy, Clone)]\n' + t
             if 'eq' in opts:
-                t = '#[derive(PartialEq, Eq)]\n' + t
+                t = '#[derive(PartialEq, Eq, Structural)]\n' + t
             out.append('// ---- extracted from %s:%d (%s)' % (rel, it.line, ipath))
             out.append(t)
             i += 1
@@ -861,6 +868,8 @@ def process_template(path, name=None, auto_bits=()):
                     sc['name'] = cname
                     out.append('// ---- extracted from %s:%d (%s), R11 case %d of %d: arm %s' % (rel, it.line, ipath, ci, len(cases), arm))
                     out.append(splice_fn(tc, sc, unit.notes))
+                    if sc.get('_loop_ids'):
+                        spec['_loop_ids'] = sc['_loop_ids']
                     qualc = (impl_ctx + '::' + cname) if impl_ctx else cname
                     unit.fns.append({'name': cname, 'qual': qualc, 'props': props, 'repo': '%s:%d %s' % (rel, it.line, qualc),
                                      'external': False, 'path': ipath})
@@ -870,6 +879,8 @@ def process_template(path, name=None, auto_bits=()):
                 text = splice_fn(t, spec, unit.notes)
                 out.append('// ---- extracted from %s:%d (%s)' % (rel, it.line, ipath))
                 out.append(text)
+            if spec.get('_loop_ids'):
+                unit.loop_heads[fname] = spec['_loop_ids']
             qual = (impl_ctx + '::' + fname) if impl_ctx else fname
             if not spec.get('cases'):
                 rec = {'name': fname, 'qual': qual, 'props': props, 'repo': '%s:%d %s' % (rel, it.line, qual),
